@@ -352,6 +352,19 @@ impl Prop for C20Prop {
             Some(o) => o,
             None => return Ok(()),
         };
+        // C[@] once more right after a call with a placeholder that compares equal to v but is another value (other scale,
+        // other sign of zero, other variant): "the result carries all the information the enclosing operation sees" also
+        // means that nothing else - such as the previous call - takes part
+        let twin = super::c14::twin_of(&v);
+        if !twin.identical(&v) && twin.fits(ev) {
+            if eval_normal(sc, ev, &case.input, &twin).is_some() {
+                if let Some(again) = eval_normal(sc, ev, &case.input, &v) {
+                    if !again.same(&rhs) {
+                        return Err(Failure::new(format!("{}/composition/stale-placeholder", ev.name()), format!("{} (= C[@] with placeholder v = {}, as on the first call)", rhs.show(), v.show()), format!("{} after an intervening call with placeholder {}", again.show(), twin.show())));
+                    }
+                }
+            }
+        }
         if !lhs.same(&rhs) {
             // key by the operator directly above the hole
             let mut parent = "top".to_string();
